@@ -104,7 +104,7 @@ func (b *Buffer) startWrite()
 
 func (b *Buffer) escapeToEnd(breakNewLines bool)
   requires inv(b)
-  requires breakNewLines <==> b.mode == UnsafeEscaped
+  requires [C01,C03] breakNewLines <==> b.mode == UnsafeEscaped
   requires b.mode == SafeRaw ==> b.validUntil == len(b.buf)
   ensures b.mode == old(b.mode) && b.markerOpen == old(b.markerOpen) && b.validUntil == len(b.buf)
   ensures inv(b)
